@@ -29,7 +29,8 @@ WHY = {
  'Channel_processDeferredQueue': 'deferred scan: exit lock; every popped message is re-queued',
  'Channel_flush': 'flush writes the hand-off queues, the memory queue, the in-flight set and the deferred set to the backend',
  'Channel_exit': 'exit: exclusive exit lock, then flush (close) or empty (delete)',
- 'Channel_Empty': 'Empty: clears in-flight, deferred, client counters, memory queue and backend',
+ 'Channel_Empty': 'Empty: exclusive exit lock (waits for requeues in progress), then empty()',
+ 'Channel_empty': 'empty: clears in-flight and deferred, drains the queues and the backend, THEN resets the consumers (F17)',
  'Channel_AddClient': 'AddClient', 'Channel_RemoveClient': 'RemoveClient: an ephemeral channel deletes itself with its last consumer',
  'Topic_messagePump': 'topic pump: every message goes to every current channel (copy for all but the first), deferred ones through PutMessageDeferred; paused or channel-less topics read nothing',
  'Topic_put': 'Topic.put: memory queue else backend (ephemeral topic: dummy backend)',
@@ -49,7 +50,7 @@ GROUPS = {
  'C02': ['Channel_FinishMessage','Channel_popInFlightMessage','Channel_pushInFlightMessage','Channel_TouchMessage','Channel_RequeueMessage','Channel_StartInFlightTimeout','Channel_processInFlightQueue','protocolV2_FIN','protocolV2_REQ','protocolV2_TOUCH','pump_deliver','pump_loop_head'],
  'C03': ['clientV2_SetReadyCount','clientV2_IsReadyForMessages','clientV2_SendingMessage','clientV2_FinishedMessage','clientV2_TimedOutMessage','clientV2_RequeuedMessage','clientV2_StartClose','protocolV2_CLS','pump_not_ready','pump_sources','Topic_messagePump'],
  'C05': ['Channel_flush','Channel_exit','Topic_flush','Topic_exit','NSQD_Exit','Channel_RequeueMessage','Channel_processInFlightQueue','Channel_processDeferredQueue','Channel_PutMessage','Topic_PutMessage','Topic_PutMessages'],
- 'C08': ['Channel_Empty','Channel_exit','Channel_AddClient','Channel_RemoveClient','Topic_DeleteExistingChannel','NSQD_DeleteExistingTopic','NSQD_GetTopic','protocolV2_FIN'],
+ 'C08': ['Channel_Empty','Channel_empty','Channel_exit','Channel_AddClient','Channel_RemoveClient','Topic_DeleteExistingChannel','NSQD_DeleteExistingTopic','NSQD_GetTopic','protocolV2_FIN'],
  'C12': ['NSQD_GetTopic'],
  'C13': ['clientV2_SendingMessage','clientV2_FinishedMessage','clientV2_TimedOutMessage','clientV2_RequeuedMessage','Channel_processInFlightQueue','Channel_FinishMessage','Channel_PutMessage','Channel_PutMessageDeferred','Topic_PutMessage','Topic_PutMessages','protocolV2_FIN','protocolV2_REQ'],
 }
